@@ -98,3 +98,36 @@ def switch_on_call_result(prog, body, callee_names):
         if d[0] == "call" and d[1] in callee_names:
             out.append((bb, d, t["cases"], t["otherwise"]))
     return out
+
+
+def is_iter_next(name):
+    return name.endswith("::next") and "iterator::Iterator" in name
+
+
+def resolve_upvars(prog, body, t, depth=0):
+    """Rewrite reads of captured variables inside closure `body` into the terms captured in its parent (recursively).
+    Returns (term, outermost body in which the term's locals live)."""
+    cur = body
+    while cur.j.get("kind") == "Closure" and depth < 6:
+        parent = prog.body(cur.j.get("direct_parent"))
+        if parent is None:
+            break
+        ups = closure_upvar_terms(prog, parent, cur.name)
+        if ups is None:
+            break
+        changed = [False]
+
+        def rw(x):
+            if isinstance(x, tuple) and x and x[0] == "field" and x[1] == ("param", 1) and x[2].isdigit() and int(x[2]) < len(ups):
+                changed[0] = True
+                return ups[int(x[2])]
+            if not isinstance(x, tuple) or not x or x[0] == "const":
+                return x
+            return tuple(rw(y) if isinstance(y, tuple) else y for y in x)
+        t2 = rw(t)
+        if not changed[0]:
+            break
+        t = t2
+        cur = parent
+        depth += 1
+    return t, cur
